@@ -35,6 +35,14 @@ THEOREMS = [
     "C08_original_stale_cache_witness",
     "C08_load_refused_witness",
     "C08_reload_reverses_witness",
+    "C08_nested_no_recall",
+    "C08_nested_leaf_no_recall",
+    "C08_nested_same_end",
+    "C08_recovery_files_raising",
+    "C08_suppressed_no_file",
+    "C08_resume_in_place",
+    "C08_flow_resume_transparent",
+    "C08_flow_hit_no_call",
     "C08_file_holds_last_cut",
     "C08_refail_conservative",
     "C08_recovery_root_only",
@@ -48,7 +56,9 @@ RULE = (
     "failing function raises (two Exception classes, KeyboardInterrupt; locally, on the executor, inside macros) x a "
     "leaf whose output only cloudpickle can serialise (the file changes suffix once it has run) x several "
     "checkpointing nodes in one run x (flat graphs) a second failure in the resumed run with its own recovery file "
-    "and resume; the file "
+    "and resume x executors and in-flight children at ANY depth (also at a checkpoint written inside a macro) x a "
+    "failing run whose exception the caller suppressed (no file: the graph itself is resumed) x hand-wired flows "
+    "(forests of `ran >> run` connections with hand-made starting nodes); the file "
     "is loaded through Node.load into a freshly built Workflow, flags cleared, fault table cleared, run again; "
     "compared with a clean run of a fresh graph and with plain composition. Non-trivial = at the cut at least one "
     "leaf had completed and at least one had not"
@@ -391,7 +401,46 @@ def _mk_sched(choices):
         def at_emit(self):
             if self.log and self.log[-1][2] != "w":
                 return
-            super().at_emit()
+            # only jobs of the root's own children can complete at a root-level point (a job of an inner level whose
+            # loop was ended by an interrupt stays out for good)
+            self.events += 1
+            self.points += 1
+            if self.points > self.max_points:
+                from .execsim import Stuck
+
+                raise Stuck("step budget exceeded")
+            from .execsim import _run_job
+
+            own = [j for j in self.jobs if getattr(getattr(j[0], "parent", None), "label", None) == "w"]
+            if own:
+                c = self._choose(len(own) + 1)
+                if c != 0:
+                    job = own[c - 1]
+                    self.jobs.remove(job)
+                    self.trace.append(f"{self.events}:{self.ident(job[0])}")
+                    _run_job(job)
+
+        def at_sleep(self, *_a):
+            # an idle composite waits for ITS OWN children: only their jobs can complete here (a macro run locally
+            # blocks its parent's thread, so from the parent's level its whole run is one step)
+            import sys as _sys
+
+            comp_ = _sys._getframe(1).f_locals.get("self")
+            own = [j for j in self.jobs if getattr(j[0], "parent", None) is comp_]
+            if comp_ is None or not own:
+                return super().at_sleep()
+            self.points += 1
+            if self.points > self.max_points:
+                from .execsim import Stuck
+
+                raise Stuck("step budget exceeded")
+            from .execsim import _run_job
+
+            c = self._choose(len(own))
+            job = own[c]
+            self.jobs.remove(job)
+            self.trace.append(f"s:{self.ident(job[0])}")
+            _run_job(job)
 
     def ident(owner):
         return owner.label[1:]
@@ -417,7 +466,21 @@ def _build(case):
 
     nodes_c08.SPEC_QUEUE.clear()
     wf = Workflow("w", autoload=None)
-    nodes_c08.build_level(wf, _with_cp(case["top"], set(case.get("cp", []))))
+    made = nodes_c08.build_level(wf, _with_cp(case["top"], set(case.get("cp", []))))
+    if case.get("flow"):
+        # a HAND-WIRED flow: no automatic derivation of the execution signals; every node is triggered by the `ran`
+        # signal of the one node it takes data from, through its any-of `run` input, the roots are the starting nodes
+        wf.automate_execution = False
+        roots = []
+        for nd in case["top"]["nodes"]:
+            g = nd["gid"]
+            ups = [s_ for sl in case["top"]["slots"][str(g)] for s_ in sl]
+            if ups:
+                made[g].signals.input.run.connect(made[ups[0]].signals.output.ran)
+            else:
+                roots.append(g)
+        order = case.get("force_starters") or sorted(roots)
+        wf.starting_nodes = [made[g] for g in order if g in roots] + [made[g] for g in roots if g not in order]
     return wf
 
 
@@ -468,7 +531,7 @@ def _apply_dirty(case, lvs, node):
                 ch.value = "e"
 
 
-def _run(wf, sched, on_root_run=None):
+def _run(wf, sched, on_root_run=None, suppress=False):
     import pyiron_workflow.nodes.composite as comp
 
     from .execsim import Instrument, Stuck
@@ -486,7 +549,10 @@ def _run(wf, sched, on_root_run=None):
     with Instrument(sched):
         comp.Composite._on_run = on_run
         try:
-            wf.run()
+            if suppress:
+                wf.run(raise_run_exceptions=False)
+            else:
+                wf.run()
         except Stuck as e:
             outcome = f"stuck:{e}"
         except BaseException as e:  # noqa: BLE001
@@ -501,9 +567,10 @@ def _clears_running(case, stage):
     return case["kind"] == "checkpoint" or "kbd" in kinds.values()
 
 
-def resume_from_file(case):
+def resume_from_file(case, live=None):
     """phases B-D in the current working directory: build a fresh Workflow, load the file, remove the cause, clear the
-    flags, run again. Everything returned is plain data (this also runs in a fresh interpreter)."""
+    flags, run again. Everything returned is plain data (this also runs in a fresh interpreter).
+    `live`: the graph itself instead of a file (a failed run whose exception was suppressed writes none)."""
     from pyiron_workflow import Workflow
     from pyiron_workflow.nodes.composite import Composite
 
@@ -513,15 +580,19 @@ def resume_from_file(case):
     kind = case["kind"]
     stage = case.get("stage", 2)
     nodes.reset()
-    wf2 = Workflow("w", autoload=None)
-    try:
-        if kind == "recovery":
-            wf2.load(filename=wf2.as_path().joinpath("recovery"))
-        else:
-            wf2.load()
+    if live is not None:
+        wf2 = live
         lvs2, node2, comp2 = _index(wf2, case)
-    except BaseException as e:  # noqa: BLE001
-        return {"load_err": f"{type(e).__name__}: {e}"[:200]}
+    else:
+        wf2 = Workflow("w", autoload=None)
+        try:
+            if kind == "recovery":
+                wf2.load(filename=wf2.as_path().joinpath("recovery"))
+            else:
+                wf2.load()
+            lvs2, node2, comp2 = _index(wf2, case)
+        except BaseException as e:  # noqa: BLE001
+            return {"load_err": f"{type(e).__name__}: {e}"[:200]}
     root_lid = lvs2[-1]["lid"]
     loaded = _snapshot(lvs2, node2)
     loaded_root = (bool(wf2.running), bool(wf2.failed))
@@ -592,7 +663,7 @@ def run_impl(case):
     wf = _build(case)
     lvs, node, comp = _index(wf, case)
     root_lid = lvs[-1]["lid"]
-    if case.get("force_starters"):
+    if case.get("force_starters") and not case.get("flow"):
         # hand-made order of the starting nodes (the execution signals are still the ones of the data flow)
         wf.automate_execution = False
         wf.set_run_signals_to_dag_execution()
@@ -640,7 +711,7 @@ def run_impl(case):
         wiring1[root_lid] = _wiring(lvs[-1], wf, node)
 
     try:
-        outcome1, _ = _run(wf, sched, grab1)
+        outcome1, _ = _run(wf, sched, grab1, suppress=bool(case.get("suppress")))
     finally:
         storage.StorageInterface.save = orig_save
         node_mod.Node.save_checkpoint = orig_ckpt
@@ -671,6 +742,13 @@ def run_impl(case):
         if pr.returncode != 0:
             raise RuntimeError("fresh interpreter failed: " + pr.stderr.decode()[-500:])
         b = pickle.loads(pr.stdout)
+    elif case.get("suppress") and kind == "recovery":
+        # no file was written: the procedure is applied to the graph itself
+        for g in case.get("exec", []):
+            node[g].executor = None
+        if not case.get("flow"):
+            wf.automate_execution = True
+        b = resume_from_file(case, live=wf)
     else:
         b = resume_from_file(case)
     if "load_err" in b:
@@ -843,11 +921,12 @@ def model_input(case, impl):
             lines.append(f"down2 {g} " + " ".join(map(str, w2["down"].get(g, []))))
         lines.append("starters " + " ".join(map(str, w1["starters"])))
         lines.append("starters2 " + " ".join(map(str, w2["starters"])))
-        if lv["lid"] == root_lid:
-            lines.append("exec " + " ".join(map(str, case.get("exec", []))))
-            lines.append("exec2 " + " ".join(map(str, case.get("exec2", []))))
-            lines.append("sched " + " ".join(r["trace1"]))
-            lines.append("sched2 " + " ".join(r["trace2"]))
+        mine = lambda toks: [t for t in toks if int(t.split(":")[1]) in lv["own"]]  # noqa: E731
+        lines.append("exec " + " ".join(str(g) for g in case.get("exec", []) if g in lv["own"]))
+        lines.append("exec2 " + " ".join(str(g) for g in case.get("exec2", []) if g in lv["own"]))
+        lines.append("sched " + " ".join(mine(r["trace1"])))
+        lines.append("sched2 " + " ".join(mine(r["trace2"])))
+        lines.append(f"cutT {len(mine(r['trace1'][:r['tokens']]))}")
         lines.append("fails " + " ".join(str(k) for k in case.get("fails", []) if k in lv["own"]))
         kinds = case.get("kinds") or {}
         lines.append("kbd " + " ".join(str(k) for k in case.get("fails", []) if k in lv["own"] and kinds.get(str(k)) == "kbd"))
@@ -873,12 +952,13 @@ def model_input(case, impl):
     lines.append("ckptmore " + " ".join(map(str, case.get("ckpt_more", []))))
     kinds2 = case.get("kinds2") or {}
     lines.append(f"clear {int(_clears_running(case, 2))} {int(_clears_running(case, 3))}")
+    lines.append(f"suppress {int(bool(case.get('suppress')) and case['kind'] == 'recovery')}")
     lines.append("fails2 " + " ".join(map(str, case.get("fails2", []))))
     lines.append("kbd2 " + " ".join(str(k) for k in case.get("fails2", []) if kinds2.get(str(k)) == "kbd"))
     if case["kind"] == "checkpoint":
         c = case["ckpt"]
         lid = next(lv["lid"] for lv in lvs if c in lv["own"])
-        lines.append(f"cut ckpt {lid} {c} {r['tokens']}")
+        lines.append(f"cut ckpt {lid} {c} 0")
     else:
         lines.append("cut end")
     lines.append("run")
@@ -962,8 +1042,11 @@ def oracle(case, impl):
     def one_file(files):
         return len(files) == 1 and files[0] in (name + ".pckl", name + ".cpckl")
 
-    nothing_failed = kind == "recovery" and r["outcome1"] == "ok"
-    if (r["files"] != []) if nothing_failed else not one_file(r["files"]):
+    suppressed = bool(case.get("suppress")) and kind == "recovery"
+    nothing_failed = kind == "recovery" and r["outcome1"] == "ok" and not r["live_root"][1]
+    if suppressed:
+        pass  # the caller asked the run not to raise: the library writes no file then, the graph itself is resumed
+    elif (r["files"] != []) if nothing_failed else not one_file(r["files"]):
         fails.append({"clause": "file-not-exactly-at-root",
                       "detail": f"files {r['files']} expected exactly one of {name}.pckl / {name}.cpckl",
                       "signature": sig("files", interrupt=interrupt)})
@@ -975,7 +1058,7 @@ def oracle(case, impl):
             fails.append({"clause": "flags-after-failure",
                           "detail": f"root (running, failed) = {r['live_root']}; raising nodes not marked failed: {badflags}",
                           "signature": sig("flags", interrupt=interrupt)})
-    if kind == "recovery" and r["outcome1"] == "ok":
+    if nothing_failed:
         return fails  # nothing failed: nothing to resume
     # (a') the file holds the graph as it stood at the cut
     for g, v in live.items():
@@ -1170,16 +1253,19 @@ def gen_case(rng, tier, force_kind=None, nested=None):
     case["kind"] = kind
     case["mode"] = rng.choice(["ctl", "ctl", "ctl-cloudpickle"])
     is_nested = bool(top_macros)
+    inner_leaves = [g for g in leaves if g not in top_leaves]
     if kind == "recovery":
         k = 1 if rng.random() < 0.8 else 2
         case["fails"] = sorted(rng.sample(leaves, min(k, len(leaves))))
-        case["exec"] = sorted(g for g in top_leaves if rng.random() < 0.35)
+        case["exec"] = sorted([g for g in top_leaves if rng.random() < 0.35] + [g for g in inner_leaves if rng.random() < 0.3])
     else:
         case["fails"] = []
         behind = [nd["gid"] for nd in top["nodes"] if any(top["slots"][str(nd["gid"])])]
         case["ckpt"] = rng.choice(behind) if behind and rng.random() < 0.5 else rng.choice(leaves + top_macros)
         # in-flight children at a checkpoint: flat graphs only (nested levels are run one after the other by the model)
-        case["exec"] = [] if is_nested else sorted(g for g in top_leaves if g != case["ckpt"] and rng.random() < 0.55)
+        # children in flight at the checkpoint, at any depth
+        case["exec"] = sorted([g for g in top_leaves if g != case["ckpt"] and rng.random() < (0.35 if is_nested else 0.55)]
+                              + [g for g in inner_leaves if g != case["ckpt"] and rng.random() < 0.4])
     case["exec2"] = list(case["exec"]) if rng.random() < 0.7 else []
     # what a failing function raises: an ordinary exception (two classes) or an interrupt
     def pick_kind():
@@ -1234,6 +1320,8 @@ def gen_case(rng, tier, force_kind=None, nested=None):
         case["kinds"] = {str(order[-1]): rng.choice(["exc", "value"])}
         if order[-1] in case["fails2"]:
             case["fails2"], case["kinds2"] = [], {}
+    # the caller suppresses the exception of the failing run: no file, the graph itself is resumed
+    case["suppress"] = kind == "recovery" and rng.random() < 0.2
     n = len(leaves)
     lazy = rng.random() < 0.5 or bool(case["force_starters"])  # executor jobs complete as late as possible: more in flight at a checkpoint
     case["choices"] = [0 if lazy and rng.random() < 0.85 else rng.randint(0, 3) for _ in range(4 * n)]
@@ -1242,13 +1330,52 @@ def gen_case(rng, tier, force_kind=None, nested=None):
     return case
 
 
+def gen_flow_case(rng, tier):
+    """a hand-wired flow: a forest, every node triggered by (and taking data from) exactly one other node"""
+    n = rng.randint(3, 6 if tier == "quick" else 8)
+    order = list(range(n))
+    rng.shuffle(order)
+    slots = {}
+    for k, g in enumerate(order):
+        sl = [[], [], []]
+        if k > 0 and rng.random() < 0.8:
+            p = rng.choice(order[:k])
+            for si in rng.sample(range(3), rng.randint(1, 2)):
+                sl[si] = [p]
+        slots[str(g)] = sl
+    nodes_ = [{"gid": g, "kind": "term"} for g in range(n)]
+    rng.shuffle(nodes_)
+    roots = [g for g in range(n) if not any(slots[str(g)])]
+    rng.shuffle(roots)
+    leaves = list(range(n))
+    case = {"top": {"nodes": nodes_, "slots": slots}, "N": n, "kind": "recovery", "flow": True,
+            "mode": rng.choice(["ctl", "ctl-cloudpickle"]), "force_starters": roots,
+            "fails": [rng.choice(leaves)], "exec": sorted(g for g in leaves if rng.random() < 0.3),
+            "cp": [rng.choice(leaves)] if rng.random() < 0.2 else [], "ckpt_more": [], "dirty": [],
+            "fails2": [], "kinds2": {}, "suppress": rng.random() < 0.15}
+    case["exec"] = [g for g in case["exec"] if True]
+    case["exec2"] = list(case["exec"]) if rng.random() < 0.7 else []
+    x = rng.random()
+    case["kinds"] = {str(case["fails"][0]): "exc" if x < 0.5 else ("value" if x < 0.7 else "kbd")}
+    if rng.random() < 0.4:
+        rest = [g for g in leaves if g != case["fails"][0]]
+        case["fails2"] = [rng.choice(rest)]
+        case["kinds2"] = {str(case["fails2"][0]): rng.choice(["exc", "kbd"])}
+    case["choices"] = [rng.randint(0, 3) for _ in range(4 * n)]
+    case["choices2"] = [rng.randint(0, 3) for _ in range(4 * n)]
+    case["choices3"] = [rng.randint(0, 3) for _ in range(4 * n)]
+    return case
+
+
 def gen_cases(rng, tier):
+    for _ in range(30 if tier == "quick" else 500):
+        yield gen_flow_case(rng, tier)
     n_cases = 230 if tier == "quick" else 5000
     for _ in range(n_cases):
         yield gen_case(rng, tier)
     # the same, with the file loaded and resumed in a fresh interpreter that has seen nothing of the first run
     for _ in range(6 if tier == "quick" else 60):
-        yield {**gen_case(rng, tier), "fresh": True}
+        yield {**gen_case(rng, tier), "fresh": True, "suppress": False}
     if tier == "thorough":
         # small scope, every cut: every leaf as the failing node / as the checkpointing node
         for _ in range(60):
@@ -1290,6 +1417,18 @@ def corpus():
     yield _flat(3, [[[], [], []], [[0], [], []], [[1], [], []]], kind="recovery", fails=[1], kinds={"1": "kbd"})
     yield _flat(3, [[[], [], []], [[0], [], []], [[1], [], []]], kind="recovery", fails=[1], kinds={"1": "kbd"}, exec=[1],
                 exec2=[1])
+    # the Lean example of Props/C08 (nestedExample): checkpoint written by b inside macro m while a is in flight inside m
+    yield {"top": {"nodes": [{"gid": 0, "kind": "term"}, {"gid": 6, "kind": "macro", "inner": {
+        "nodes": [{"gid": 1, "kind": "term"}, {"gid": 2, "kind": "term"}, {"gid": 3, "kind": "term"}],
+        "slots": {"1": [["A"], [], []], "2": [["B"], [], []], "3": [[2], [1], []]}, "ui": {"A": 4, "B": 5}, "out": 3}},
+        {"gid": 7, "kind": "term"}],
+        "slots": {"0": [[], [], []], "6": [[0], [0]], "7": [[6], [], []]}}, "N": 8, "kind": "checkpoint", "ckpt": 2,
+        "exec": [1], "exec2": [1], "fails": [], "dirty": [], "mode": "ctl", "choices": [], "choices2": []}
+    # a hand-wired flow 0 >> 1 >> 2, 0 >> 3: 1 raises
+    yield _flat(4, [[[], [], []], [[0], [], []], [[1], [], []], [[0], [], []]], kind="recovery", fails=[1], flow=True,
+                force_starters=[0])
+    # a failing run whose exception the caller suppresses: no file; the graph itself is resumed
+    yield _flat(3, [[[], [], []], [[0], [], []], [[1], [], []]], kind="recovery", fails=[1], suppress=True)
     # a starting node on the executor is still out when a later starting node fails locally
     yield _flat(3, [[[], [], []], [[], [], []], [[0], [], []]], kind="recovery", fails=[1], kinds={"1": "exc"}, exec=[0],
                 exec2=[0], force_starters=[0, 1])
@@ -1317,6 +1456,10 @@ def shrink_candidates(case):
         yield {**case, "fails2": [], "kinds2": {}}
     if case.get("force_starters"):
         yield {**case, "force_starters": []}
+    if case.get("suppress"):
+        yield {**case, "suppress": False}
+    if case.get("flow"):
+        return  # the wiring of a flow is the case: no structural shrinking
     if case.get("ckpt_more"):
         yield {**case, "ckpt_more": []}
     if case.get("cp"):
